@@ -171,3 +171,41 @@ Theorem C10_shutdown_clears_detector :
   forall k, tracked k (drun st (h ++ map (fun m => (t, EMsg m)) (cleanup cancelled))) = false.
 Proof. exact shutdown_clears_detector. Qed.
 Print Assumptions C10_shutdown_clears_detector.
+
+(* ---------------------------------------------------------------- publication over a connection that may break *)
+(* client.Publish makes MaxRetries + 1 attempts.  If the connections of fewer attempts than that break while the
+   command is in flight (before or after the server processed it) and no attempt is refused outright, the
+   announcement -- New, Update or Clear alike -- is delivered, and nothing but copies of it is. *)
+Theorem C10_publication_survives_transient_faults :
+  forall attempts sc m, survivable attempts sc = true ->
+  In m (publish attempts sc m) /\ forall x, In x (publish attempts sc m) -> x = m.
+Proof. intros a sc m H. split; [exact (publish_survivable a sc m H)|exact (publish_only_copies a sc m)]. Qed.
+Print Assumptions C10_publication_survives_transient_faults.
+
+(* duplicates are harmless: the detector ends up exactly where a fault-free publication leaves it ... *)
+Theorem C10_faulty_publication_equals_clean :
+  forall attempts sc m now st, survivable attempts sc = true ->
+  deliver now st (publish attempts sc m) = detector_step now st m.
+Proof. exact faulty_publication_equals_clean. Qed.
+Print Assumptions C10_faulty_publication_equals_clean.
+
+(* ... because every operation of the detector is idempotent *)
+Theorem C10_detector_operations_idempotent :
+  forall now st m, detector_step now (detector_step now st m) m = detector_step now st m.
+Proof. exact detector_step_idem. Qed.
+Print Assumptions C10_detector_operations_idempotent.
+
+(* the budget is what makes the difference: when as many connections break as the client makes attempts the
+   announcement is lost (a client configured for a single attempt loses it to one fault) *)
+Theorem C10_publication_lost_beyond_budget :
+  forall attempts sc m, Forall (fun f => f = FLostBefore) sc -> (attempts <= length sc)%nat ->
+  publish attempts sc m = [].
+Proof. exact publish_lost. Qed.
+Print Assumptions C10_publication_lost_beyond_budget.
+
+(* the shutdown Clear under the same faults: the table is emptied all the same *)
+Theorem C10_clear_survives_transient_faults :
+  forall attempts sc cancelled now st, survivable attempts sc = true ->
+  deliver now st (flat_map (publish attempts sc) (cleanup cancelled)) = [].
+Proof. exact clear_survives_faults. Qed.
+Print Assumptions C10_clear_survives_transient_faults.
